@@ -45,6 +45,7 @@ func main() {
 	runConfigProduct()
 	runSpecialParity()
 	runConflictingLevelHint()
+	runGS1()
 	runAutoMask()
 	runPenaltyRules()
 	runCharacterSweeps()
